@@ -175,13 +175,15 @@ Definition attr_idents : list string := ["inline"; "doc"; "allow"; "non_camel_ca
 Definition declared_idents : list string :=
   ["other"; "state"; "f"; "source"; "educe__f"; "builder"; "arg"; "fmt";
    "Educe__RawString"; "Educe__DebugField"; "V"; "M"].
-(** RESIDUAL EXPOSURE: primitive type names are written unqualified (`-> bool`,
-    `*const u8`, `&'static str`): an item of that name in scope at the derive
-    site captures them *)
+(** the primitive type names the templates mention (`-> bool`, `*const u8`,
+    `&'static str`).  They are NOT part of the allowlist: an item of that name
+    in scope at the derive site (`struct bool;`) would capture an unqualified
+    use, so the templates must write them `::core::primitive::bool` .. -- a
+    global path, which [tok_step] reads without consulting the allowlist *)
 Definition prim_idents : list string := ["bool"; "u8"; "str"].
 
 Definition template_idents : list string :=
-  kw_idents ++ attr_idents ++ declared_idents ++ prim_idents.
+  kw_idents ++ attr_idents ++ declared_idents.
 
 (** [fresh] = the one identifier a template COMPUTES: the hasher parameter (H3) *)
 Definition tallow (fresh : string) (s : string) : bool :=
